@@ -80,7 +80,7 @@ NOT_YET = "check under construction in this session; not yet registered"
 SRC = {
     "C01": "TheFittest._replace, TheFittest._update (= Rec.update)",
     "C02": "TheFittest._update (= Rec.update; the record never decreases)",
-    "C03": "TheFittest._update (stagnation counter), _termitation_check (= Cfg.stop), get_remains_calls (= Cfg.remains), the method-call skeleton of fit() (stops at the first consultation at which the rule holds; one evaluation per generation; one callback per generation after the first)",
+    "C03": "TheFittest._update (stagnation counter), _termitation_check (= Cfg.stop), get_remains_calls (= Cfg.remains), the method-call skeleton of fit() (stops at the first consultation at which the rule holds; one evaluation per generation; one callback per generation after the first), _get_aim (= sign * optimal_value - termination_error_value; with _termitation_check and _get_fitness: the aim rule fires exactly when the objective is within the error on the correct side, for minimisation and maximisation)",
     "C05": "_get_fitness: the sign is applied exactly once to every objective value (= Cfg.fitOf), the evaluation counter advances by their number",
     "C06": "flip_mutation, binomialGA, one_point / two_point / uniform / uniform_proportional / uniform_rank / empty crossover (random draws as explicit streams; the ARGUMENTS each passes to random_sample / random_weighted_sample are part of the statements - one cut below the string length, two DISTINCT cuts, weights = fitness / rank, one parent index per locus); GeneticAlgorithm._get_new_individ_g (the wiring of one offspring: selection on scaled fitness and ranks, crossover of the selected rows, mutation of its result)",
     "C07": "bounds_control (coordinate-wise clamp), binomial, the donor strategies best_1 / rand_1 / rand_to_best1 / current_to_best_1 / best_2 / rand_2 / current_to_pbest_1_archive (= DE.donor / currentToPbest1 on the rows named by random_sample, read over the ring Int; with random_sample as translated: DISTINCT members, asked for without replacement); DifferentialEvolution._get_new_individ_g / SHADE._get_new_individ_g (the wiring of one trial: donor from parent/best/population/F, binomial with the parent first under CR, boundary repair - so the trial is in the box whatever donor and crossover return)",
